@@ -58,7 +58,11 @@ func main() {
 		os.Exit(checks.C18Hist(os.Args[2]))
 	case "c18race":
 		n, _ := strconv.Atoi(os.Args[2])
-		os.Exit(checks.C18Race(n))
+		part, parts := 0, 1
+		if len(os.Args) > 3 {
+			fmt.Sscanf(os.Args[3], "%d/%d", &part, &parts)
+		}
+		os.Exit(checks.C18Race(n, part, parts))
 	case "tree":
 		fmt.Println(checks.TreeOf(os.Args[2]))
 	case "c11one":
